@@ -130,6 +130,52 @@ CLAIMED = {
         note=TB + "Partial: that the future is resolved/cancelled by the connection is C01/C08; asyncio's timers are trusted; float rounding next to a .5 boundary accepted within 1e-9.",
         technique="Coq proof (Q arithmetic + finite table by vm_compute lifted with forallb_forall; corollaries of the limiter and timeout theorems) + exhaustive-in-current-limit correspondence + virtual-time workload oracle",
         ref='6/C20'),
+    'C01': dict(
+        text=("Proof: on the model of JSONRPCConnection, for every history of send_request / send_batch / receive_message(any "
+              "bytes) / cancel and every protocol class: ids outstanding together are pairwise distinct and below the counter "
+              "(invariant); a response resolves exactly the entry its id names (Python's 1 == 1.0 == True identification), "
+              "removes it and leaves the others; unknown, replayed, string/null and unhashable ids are ProtocolErrors with the "
+              "table untouched; any message changes the table by at most one removed key; no awaitable is completed twice along "
+              "any history; a batch completes with one value per request in member order for EVERY permutation of the response "
+              "members (insertion sort + uniqueness of strictly sorted permutations); cancel releases everything. "
+              "Correspondence: operation traces against the real connection for v1/v2/Loose/AutoDetect with an independently "
+              "encoded response stream; outcome, completed future + values, len(pending) after every operation."),
+        note=TB + "That the caller's `await future` returns what was put into the future is asyncio's; the session-level path (send_request through RPCSession) is exercised by the C20/C08 scenarios, not proved.",
+        technique="Coq proof (invariants by induction over operation lists; Permutation/StronglySorted argument for batch order) + vm_compute trace correspondence against JSONRPCConnection",
+        ref='6/C01'),
+    'C02': dict(
+        text=("Proof: a single request's reply carries its id - the result, or -32600 when over a positive max_response_size; the "
+              "closure of a request batch expects exactly one part per invalid member (pre-filled) plus one per request member; "
+              "each supplied result appends one entry under its own id; for every order of supply all calls but the last return "
+              "nothing and the last returns the one batch response (error entries first, then the entries in supply order). "
+              "The clause 'one error entry per invalid member' is REFUTED in Coq for batches without any request member but "
+              "with a notification (C02_refuted = known finding F9). Correspondence: real connection, batch compositions with "
+              "all member kinds and id types, results supplied in random orders with sizes around max_response_size."),
+        note=TB + "Error message texts of library-generated replies are not modelled: replies are compared through (id, result | error code) signatures.",
+        technique="Coq proof (induction over the supply list) + refutation witness by vm_compute + trace correspondence",
+        ref='6/C02'),
+    'C04': dict(
+        text=("Proof (partial): payload level, all three protocol classes: what encoder e writes, decoder d (same version or "
+              "Loose) reads back as the equal item with the same id - requests, notifications (incl. [] vs {} params), results, "
+              "errors, whole batches; format predicates of 2.0 and 1.0 (1.0: no named params, no batches); the loose decoder "
+              "agrees with both strict encoders; auto-detection always settles on a decoder compatible with the encoder; every "
+              "encoded message is printable ASCII, hence newline-free (induction over JSON values, all Unicode incl. lone "
+              "surrogates and astral characters). NOT proved: the text-level round trip loads(print v) = v, which is tied by "
+              "the byte-exact correspondence only. Correspondence: real *_message classmethods byte-exact vs Json.print; "
+              "message_to_item and detect_protocol on member-set x value-type payloads, batches and a malformed stream."),
+        note=TB + "Floats are opaque repr tokens; strings avoid a high surrogate directly followed by a low one (json merges them, note N4).",
+        technique="Coq proof (symbolic evaluation of the classifiers on built payloads; nested induction for the printer) + byte-exact vm_compute correspondence in both directions",
+        ref='6/C04'),
+    'C05': dict(
+        text=("Proof: for EVERY byte string, connection state and protocol class receive_message yields items, a completed "
+              "awaitable or a ProtocolError - never another exception (total case analysis of the model, with the decoder-"
+              "failure behaviour read from the table measured on the running code: all four kinds are parse errors after the "
+              "fixes of F5-F7); a ProtocolError without reply arises only for response-like input; error replies are "
+              "well-formed; the serving loop survives every message sequence. Correspondence: malformed stream in every "
+              "connection state; session level: streams into a serving RPCSession followed by a probe request."),
+        note=TB + "The JSON nesting limit depends on the interpreter stack depth at the call; inputs within ~100 levels of the limit are not generated.",
+        technique="Coq proof (totality by case analysis + measured decoder-failure table) + correspondence on a malformed-input stream + session probe oracle",
+        ref='6/C05'),
 }
 
 REASONS = {}
